@@ -74,7 +74,7 @@ def eval_hashseed(arg):
     res = {"seed": seed, "nmods": nmods, "fmt": fmt, "st0": st0, "ops": ops, "runs": []}
     try:
         proj = histrun.Project(root)
-        proj.sync(files)
+        proj.sync(files, project.unlisted_paths(st))
         targets = proj.targets()
         stems = sorted({t.split("/")[0].split(".")[0] for t in targets})
         outs = []
@@ -131,6 +131,7 @@ def eval_inproc_history(arg):
     rnd = random.Random(seed)
     st0, ops = project.history(seed, nmods, 1)
     files = project.render(st0)
+    files["zz_misspelt.py"] = "import tomlib\nimport distutil\nimport asyncoi\nimport imp\n"  # 'did you mean' notes depend on the target's stdlib
     cases = corpus.load()
     root = mypyrun.scratch("c10i")
     res = {"seed": seed, "nmods": nmods, "npre": npre, "pre": []}
@@ -140,7 +141,7 @@ def eval_inproc_history(arg):
         targets = proj.targets()
         # preceding builds
         for i in range(npre):
-            kind = rnd.choice(["corpus", "corpus", "corpus-flags", "blocker", "daemon", "project"])
+            kind = rnd.choice(["corpus", "corpus", "corpus-flags", "blocker", "daemon", "project", "other-version", "other-version"])
             d = mypyrun.scratch("c10pre")
             cdir = mypyrun.scratch("c10prec")
             try:
@@ -148,6 +149,13 @@ def eval_inproc_history(arg):
                     c = rnd.choice(cases)
                     mypyrun.write_files(d, c.files)
                     fl = corpus.safe_flags(c.flags) if kind == "corpus-flags" else []
+                    mypyrun.seed_for(histrun.COMMON + fl, "c10").copy_to(cdir)
+                    mypyrun.run_inproc(histrun.COMMON + fl + ["--cache-dir", cdir, "main.py"], cwd=d)
+                elif kind == "other-version":
+                    # another target version / platform, with unresolved imports (per-build caches of stdlib knowledge)
+                    pv = rnd.choice(["3.10", "3.11", "3.14"])
+                    mypyrun.write_files(d, {"main.py": "import requets\nimport tomlib\nimport asynchat\nimport sys\nif sys.platform == 'win32':\n    import msvcrt\n"})
+                    fl = ["--python-version", pv, "--platform", rnd.choice(["win32", "linux", "darwin"])]
                     mypyrun.seed_for(histrun.COMMON + fl, "c10").copy_to(cdir)
                     mypyrun.run_inproc(histrun.COMMON + fl + ["--cache-dir", cdir, "main.py"], cwd=d)
                 elif kind == "blocker":
